@@ -168,6 +168,17 @@ def _chunks(chk, repo, folder):
                 ok = isinstance(v, ast.Subscript) and src(v.value) == "b" and isinstance(v.slice, ast.Slice) and src(v.slice.upper) == cnt \
                     and (v.slice.lower is None or src(v.slice.lower) == "0")
                 chk.check(ok, "R4", f"{CL}:WritableStream.write | segment data is the head of the buffer", f.loc(s_), f"data slice is {src(v)}; expected b[0:{cnt}]")
+    # the expedited frame is only built from a buffer that holds all announced bytes
+    for call, stmt in sinks(ff):
+        g = [(ff.norm(e, subst=False), p) for e, p in ff.facts_at(stmt)]
+        if (ff.canon("self._exp_header is not None"), True) in g:
+            ok = any(p and t in (ff.canon("len(b) >= self.size"), ff.canon("self.size <= len(b)")) for t, p in g) or any((not p) and t == ff.canon("len(b) < self.size") for t, p in g)
+            chk.check(ok, "R4", f"{CL}:WritableStream.write | expedited frame only with all announced bytes", f.loc(stmt),
+                      f"the expedited request is sent under {g}: with fewer bytes than the announced size the frame is padded with zeros and the server stores them")
+            node = ff.cfg.node_of(stmt)
+            wit = must_pass(ff.cfg, lambda n: n.kind == "stmt" and isinstance(n.ast, ast.Assign) and any(dotted(t) == "self._done" for t in n.ast.targets)
+                            and folder.try_fold(n.ast.value, ff.scope, None) is True, from_node=node)
+            chk.check(wit is None, "R6", f"{CL}:WritableStream.write | expedited download marks the stream done", f.loc(stmt), "a second write() would send the value again")
     # early `return 0` only before anything was emitted
     for r in [n for n in own_nodes(f.node) if isinstance(n, ast.Return) and isinstance(n.value, ast.Constant)]:
         node = ff.cfg.node_of(r)
@@ -182,6 +193,21 @@ def _chunks(chk, repo, folder):
         chk.check(ff.is_form(r.value, "response[1:length + 1]"), "R4", f"{CL}:ReadableStream.read | returned slice", f.loc(r), f"returns {src(r.value)}; expected response[1:length + 1]")
     for i in [n for n in own_nodes(f.node) if isinstance(n, ast.AugAssign) and dotted(n.target) == "self.pos"]:
         chk.check(src(i.value) == "length", "R4", f"{CL}:ReadableStream.read | pos advances by the segment length", f.loc(i), src(i))
+    # expedited data is handed out exactly once, and nothing after the stream is done
+    f = repo.func(CL, "ReadableStream.read", "C01.R4")
+    ff = ff_for(chk, f, "C01.R4")
+    exp_rets = [n for n in own_nodes(f.node) if isinstance(n, ast.Return) and n.value is not None and src(n.value) == "self.exp_data"]
+    chk.check(len(exp_rets) == 1, "R4", f"{CL}:ReadableStream.read | expedited data returned from one place", f.loc(), f"{len(exp_rets)} returns of self.exp_data")
+    for r in exp_rets:
+        node = ff.cfg.node_of(r)
+        dn = [ff.cfg.node_of(s_) for s_ in attr_stores(f.node, "_done") if folder.try_fold(s_.value, ff.scope, None) is True]
+        ok = any(ff.cfg.dominates(d, node) and {x for x in (ff.facts_in().get(d) or ())} >= {x for x in (ff.facts_in().get(node) or ()) if "exp_data" in x[0]} for d in dn)
+        chk.check(ok, "R4", f"{CL}:ReadableStream.read | expedited data handed out once", f.loc(r),
+                  "self.exp_data is returned without marking the stream done: a reader that loops until EOF (readall, BufferedReader) gets the value again and again")
+        from .common import always_exits
+        first = [t for t in ff.cfg.nodes if t.kind == "test" and src(t.ast) == "self._done" and getattr(t, "owner", None) is not None
+                 and always_exits(t.owner.body) and ff.cfg.dominates(t, node)]
+        chk.check(bool(first), "R4", f"{CL}:ReadableStream.read | nothing after EOF", f.loc(r), "expedited data can be returned although the stream is done: the done check must come first")
     f = repo.func(CL, "ReadableStream.readinto", "C01.R4")
     chk.saw(f)
     body = [src(s_) for s_ in f.node.body if not (isinstance(s_, ast.Expr) and isinstance(s_.value, ast.Constant))]
